@@ -52,6 +52,14 @@ type ReqOpt struct {
 	VarInLiteral bool
 	// ShuffleArgs writes arguments out of declaration order.
 	ShuffleArgs bool
+	// NoUnion leaves union-typed fields out (the interface strategy cannot bind
+	// union members: every object is the same Go wrapper type).
+	NoUnion bool
+	// NoFragments leaves inline fragments and fragment spreads out (they can
+	// repeat a response key of the enclosing selection set).
+	NoFragments bool
+	// UniqueKeys avoids repeating a response key inside one selection set.
+	UniqueKeys bool
 }
 
 type reqGen struct {
@@ -167,10 +175,19 @@ func (g *reqGen) fieldsOf(typ string) []zf {
 	if g.o.Strat == StratReflect {
 		var out []zf
 		for _, f := range fs {
-			if f.name == "find" {
+			if f.name == "find" || (g.o.NoUnion && f.typ == "Thing") {
 				continue
 			}
 			out = append(out, f)
+		}
+		return out
+	}
+	if g.o.NoUnion {
+		var out []zf
+		for _, f := range fs {
+			if f.typ != "Thing" {
+				out = append(out, f)
+			}
 		}
 		return out
 	}
@@ -193,6 +210,7 @@ func (g *reqGen) selection(typ string, depth int, ind string) string {
 	fs := g.fieldsOf(typ)
 	n := 1 + g.t.Draw(4)
 	wrote := 0
+	used := map[string]bool{}
 	for i := 0; i < n; i++ {
 		switch g.t.Draw(14) {
 		case 0:
@@ -200,7 +218,7 @@ func (g *reqGen) selection(typ string, depth int, ind string) string {
 			wrote++
 			continue
 		case 1:
-			if typ != "Animal" && depth < g.o.MaxDepth {
+			if typ != "Animal" && depth < g.o.MaxDepth && !g.o.NoFragments {
 				// inline fragment, with or without condition
 				cond := " on " + typ
 				if g.t.Bool(1, 3) {
@@ -211,7 +229,7 @@ func (g *reqGen) selection(typ string, depth int, ind string) string {
 				continue
 			}
 		case 2:
-			if typ == "Keeper" || typ == "Dog" || typ == "Cell" {
+			if (typ == "Keeper" || typ == "Dog" || typ == "Cell") && !g.o.NoFragments {
 				name := "F" + typ + strconv.Itoa(g.t.Draw(2))
 				if _, ok := g.frags[name]; !ok {
 					g.frags[name] = "" // reserve (prevents self reference)
@@ -246,8 +264,13 @@ func (g *reqGen) selection(typ string, depth int, ind string) string {
 				f = leaves[g.t.Draw(len(leaves))]
 			}
 		}
+		alias := g.t.Bool(1, 4)
+		if g.o.UniqueKeys && !alias && used[f.name] {
+			alias = true
+		}
+		used[f.name] = true
 		b.WriteString(ind + "  ")
-		if g.t.Bool(1, 4) {
+		if alias {
 			g.nAli++
 			b.WriteString("a" + strconv.Itoa(g.nAli) + ": ")
 		}
